@@ -641,6 +641,9 @@ class Aspire:
             aspire._resume_n_samples = n_samples
             aspire._resume_overrides = resume_kwargs or {}
             aspire._resume_sampler_config = sampler_config
+        if saved_sampler_type:
+            # Keep naming the sampler if the configuration is saved again
+            aspire._last_sampler_type = saved_sampler_type
         aspire._checkpoint_defaults = {
             "path": file_path,
             "every": 1,
